@@ -22,6 +22,7 @@ type c11Case struct {
 	Batch     string `json:"batch"`
 	Poll      string `json:"poll"`
 	Tail      int    `json:"tail,omitempty"`
+	TailData  bool   `json:"tail_data,omitempty"`
 	CloseRace bool   `json:"close_race,omitempty"`
 	SlowMs    int    `json:"slow_ms,omitempty"`
 	Reopen    string `json:"reopen,omitempty"`
@@ -43,7 +44,7 @@ func (c c11Case) class() string {
 		return fmt.Sprintf("open-A,open-B,A-ends(%s),open-C,traffic-on-B-and-C|inject=%v|v%d|sizes=%s|kinds=%s|batch=%s|poll=%s", c.Reopen, c.Inject, c.Version, c.Sizes, c.Kinds, c.Batch, c.Poll)
 	}
 	if c.Tail > 0 {
-		return fmt.Sprintf("inject=%v|v%d|sessions=%d|sizes=%s|kinds=%s|batch=%s|poll=%s|final-burst=%s+backend-close", c.Inject, c.Version, c.Sessions, c.Sizes, c.Kinds, c.Batch, c.Poll, c11Bucket(c.Tail))
+		return fmt.Sprintf("inject=%v|v%d|sessions=%d|sizes=%s|kinds=%s|batch=%s|poll=%s|final-burst=%s+backend-close%s", c.Inject, c.Version, c.Sessions, c.Sizes, c.Kinds, c.Batch, c.Poll, c11Bucket(c.Tail), map[bool]string{true: "+data-post-before-first-poll", false: ""}[c.TailData])
 	}
 	return fmt.Sprintf("inject=%v|v%d|sessions=%d|sizes=%s|kinds=%s|batch=%s|poll=%s", c.Inject, c.Version, c.Sessions, c.Sizes, c.Kinds, c.Batch, c.Poll)
 }
@@ -67,6 +68,7 @@ type c11Result struct {
 	JSONClasses   map[string]int    `json:"json_classes"`
 	TailCarried   int               `json:"tail_carried"`
 	TailPolls     int               `json:"tail_polls"`
+	TailDataPosts int               `json:"tail_data_posts"`
 	CloseRaceMsgs int               `json:"close_race_msgs"`
 	Injected      int               `json:"injected"`
 	KeysAdded     int               `json:"keys_added"`
@@ -157,6 +159,7 @@ func c11Cases(r *core.Run) []c11Case {
 		// every third history ends with a burst the backend sends while nobody polls, then closes
 		if i%3 == 1 {
 			c.Tail = []int{1, 2, 9, 10, 11, 12, 30, 1 + rng.Intn(30)}[rng.Intn(8)]
+			c.TailData = i%6 == 1 // every other one: a data post slips in between the backend's close and the first poll
 		}
 		out = append(out, c)
 	}
@@ -192,7 +195,7 @@ func c11Cases(r *core.Run) []c11Case {
 // C11 — shimmed websockets deliver every message once, in order, unchanged.
 func C11(r *core.Run) {
 	r.Level = "exploration"
-	r.SetRule("websockets.Proxy driven in-process (race-built worker, agent's GODEBUG defaults) against a real gorilla websocket backend; one case = one seeded message history over 1-2 shim sessions: text (valid UTF-8 incl. NUL, quotes, <>&, U+2028, 4-byte runes) and binary (all byte values, protocol v1) messages of sizes {0,1,125,126,127,65535,65536,65537,1 MiB,random}, client messages partitioned into data posts of 1-40 (some >10 = queue capacity, some spanning two sessions), backend bursts of 1-100 sent before / while / trickling during polls, one data post and one poll outstanding per session; every third history ends with a final backend burst of 1-30 messages (incl. 10, 11, 12, 30) sent while no poll is outstanding followed by a graceful backend close, after which polls must deliver the burst and then report the session closed; plus one quiet history: 6 idle sessions polled the way the browser shim polls (one poll outstanding, re-poll on every answer) while the backend is silent for 16 s, speaks, and speaks again at 20.6 s (around the 20 s poll time-out), every message to be delivered exactly once; plus a busy-backend history: the backend does not read for 7 s (thorough also 6, 9, 12 s) and then resumes, while the client posts a 12 MiB message, ten small ones and further posts that have to wait for room, and goes on posting whatever the answers are; what the backend receives must be a gap-free prefix of what was posted and contain every post answered 200; plus reopen histories: open A, open B, traffic on A, A ends (client close | backend close reported by a poll), open C, then interleaved two-session traffic (posts spanning B and C) with every backend connection and every session's polls checked for exactly their own messages; plus close-behind-data histories: 1-35 messages (more than the queue, or 1 MiB each) posted to a backend that reads one message per 5-20 ms, close posted right behind the last data post, all messages must arrive in order followed by a normal closure; with injection enabled JSON messages of 13 shapes around resource.headers; class = (injection, protocol version, sessions, size profile, kinds, post batching, poll timing)")
+	r.SetRule("websockets.Proxy driven in-process (race-built worker, agent's GODEBUG defaults) against a real gorilla websocket backend; one case = one seeded message history over 1-2 shim sessions: text (valid UTF-8 incl. NUL, quotes, <>&, U+2028, 4-byte runes) and binary (all byte values, protocol v1) messages of sizes {0,1,125,126,127,65535,65536,65537,1 MiB,random}, client messages partitioned into data posts of 1-40 (some >10 = queue capacity, some spanning two sessions), backend bursts of 1-100 sent before / while / trickling during polls, one data post and one poll outstanding per session; every third history ends with a final backend burst of 1-30 messages (incl. 10, 11, 12, 30) sent while no poll is outstanding followed by a graceful backend close (in half of them a client data post arrives before the first poll), after which polls must deliver the burst and then report the session closed; plus one quiet history: 6 idle sessions polled the way the browser shim polls (one poll outstanding, re-poll on every answer) while the backend is silent for 16 s, speaks, and speaks again at 20.6 s (around the 20 s poll time-out), every message to be delivered exactly once; plus a busy-backend history: the backend does not read for 7 s (thorough also 6, 9, 12 s) and then resumes, while the client posts a 12 MiB message, ten small ones and further posts that have to wait for room, and goes on posting whatever the answers are; what the backend receives must be a gap-free prefix of what was posted and contain every post answered 200; plus reopen histories: open A, open B, traffic on A, A ends (client close | backend close reported by a poll), open C, then interleaved two-session traffic (posts spanning B and C) with every backend connection and every session's polls checked for exactly their own messages; plus close-behind-data histories: 1-35 messages (more than the queue, or 1 MiB each) posted to a backend that reads one message per 5-20 ms, close posted right behind the last data post, all messages must arrive in order followed by a normal closure; with injection enabled JSON messages of 13 shapes around resource.headers; class = (injection, protocol version, sessions, size profile, kinds, post batching, poll timing)")
 	r.Assume("binary messages are only generated under shim protocol version 1 (version 0 carries text only); JSON numbers in injected messages are float64-exact; injection is judged as safety only (an unchanged message is always acceptable)")
 	bin := r.MustBuild(r.BuildWorker())
 	godebug := shimGodebug(r)
@@ -246,6 +249,7 @@ func C11(r *core.Run) {
 		r.Max("max_backend_burst", res.MaxBurst)
 		r.Add("messages_delivered_after_final_burst_and_backend_close", res.TailCarried)
 		r.Add("polls_after_backend_close", res.TailPolls)
+		r.Add("data_posts_between_backend_close_and_first_poll", res.TailDataPosts)
 		r.Add("messages_delivered_ahead_of_close_to_slow_backend", res.CloseRaceMsgs)
 		if c.Reopen != "" {
 			r.Add("histories_opening_a_session_after_another_ended_while_a_third_is_live", 1)
